@@ -134,7 +134,12 @@ class SchemaGen:
 			aligned_parent = True
 		for index in range(self.rng.randrange(1, 4)):
 			pick = self.rng.random()
-			if pick < 0.35:
+			if pick < 0.12:
+				# NEM-style optional byte array: the size member holds a sentinel when the array is absent
+				width, sentinel = self.rng.choice([('uint32', '0xFFFFFFFF'), ('uint16', '0xFFFF'), ('uint32', '4294967295')])
+				lines += [f'\topt{index}_size = {width}', f'\topt{index} = array(int8, opt{index}_size) if {sentinel} not equals opt{index}_size']
+				self.features.add('optional-byte-array')
+			elif pick < 0.35:
 				width = self.rng.choice(UNSIGNED)
 				lines += [f'\tdata{index}_size = {width}', f'\tdata{index} = array({self.rng.choice(["uint8", "int8"])}, data{index}_size)']
 				self.features.add('byte-array')
